@@ -360,6 +360,14 @@ func main() {
 					switch {
 					case len(bs) <= 1 && !to && !slice:
 						scs = append(scs, scenario(c, -1))
+					case len(bs) <= 1 && slice && to && m != "":
+						// two events, timers and a manager: many threads even with one subscriber; the quick
+						// tier relies on the delay-bounded twin, the thorough tier adds preemption bound 1
+						if r.Thorough() {
+							sc := scenario(c, 1)
+							sc.RaceBound = -2
+							scs = append(scs, sc)
+						}
 					case len(bs) <= 1:
 						scs = append(scs, scenario(c, ev.Pick(r, 2, 3)))
 					case !to && !slice:
